@@ -32,7 +32,7 @@ def graph_spec(draw, max_hypers=3, max_latents=2, max_data=3, latent_fams=None, 
     latents = []
     for i in range(nl):
         n = draw(st.integers(2, max_dim))
-        fam = draw(st.sampled_from(latent_fams or ["Gaussian", "Gaussian", "GMRF", "LMRF", "CMRF", "Laplace", "Normal"]))
+        fam = draw(st.sampled_from(latent_fams or ["Gaussian", "Gaussian", "GMRF", "LMRF", "CMRF", "Laplace", "Normal", "Lognormal"]))
         hy = draw(st.sampled_from(free_hypers + [None])) if free_hypers else None
         lat = {"name": LATENT_NAMES[i], "dim": n, "fam": fam, "hyper": hy, "mean": draw(gen.vec(n, -1, 1)),
                "level": draw(gen.logpos(-0.5, 0.5))}
@@ -65,7 +65,8 @@ def graph_spec(draw, max_hypers=3, max_latents=2, max_data=3, latent_fams=None, 
         u = draw(st.floats(0.1, 0.9))
         vals[h["name"]] = [u if h["fam"] == "Beta" else (u * h["b"] if h["fam"] == "Uniform" else 0.2 + 3 * u)]
     for lat in latents:
-        vals[lat["name"]] = draw(gen.vec(lat["dim"], -1.5, 1.5))
+        v = draw(gen.vec(lat["dim"], -1.5, 1.5))
+        vals[lat["name"]] = [float(np.exp(t)) for t in v] if lat["fam"] == "Lognormal" else v
     for node in data:
         v = draw(gen.vec(node["dim"], -1.5, 1.5))
         vals[node["name"]] = [float(np.exp(t)) for t in v] if node["fam"] == "Lognormal" else v
@@ -129,10 +130,13 @@ def _hy(hy, kind, lev, R=None):
         return gen.named_callable([hy], lambda h: lev / h)
     if kind == "h_over_lev":
         return gen.named_callable([hy], lambda h: h / lev)
+    # (|h|: a random-walk proposal for the hyper-parameter may be negative; the hyper-prior then gives -inf, but a NaN matrix
+    # handed to Gaussian makes numpy's rank computation raise LinAlgError before that - a user writes the callable, so the
+    # harness writes one that stays finite)
     if kind == "sqrt_lev_over_h":
-        return gen.named_callable([hy], lambda h: np.sqrt(lev / h))
+        return gen.named_callable([hy], lambda h: np.sqrt(lev / np.abs(h)))
     if kind == "sqrt_h_over_lev_R":
-        return gen.named_callable([hy], lambda h: np.sqrt(h / lev) * R)
+        return gen.named_callable([hy], lambda h: np.sqrt(np.abs(h) / lev) * R)
     raise ValueError(kind)
 
 
@@ -156,6 +160,8 @@ def _data_density(node):
         return D.Normal(mean, np.sqrt(lev) if hy is None else _hy(hy, "sqrt_lev_over_h", lev), geometry=m, name=name)
     if fam == "Laplace":
         return D.Laplace(mean, lev if hy is None else _hy(hy, "lev_over_h", lev), geometry=m, name=name)
+    # (a Lognormal whose mean and covariance are both conditional cannot be constructed - its inner Gaussian gets no geometry -
+    # so the data-node Lognormal keeps a constant covariance; the latent Lognormal below carries the hyper-dependent one)
     return D.Lognormal(mean, lev * np.eye(m), geometry=m, name=name)
 
 
@@ -182,6 +188,10 @@ def _latent_density(lat):
         return getattr(D, fam)(mean, lev if hy is None else _hy(hy, "lev_over_h", lev), bc_type=lat["bc"], geometry=n, name=name)
     if fam == "Laplace":
         return D.Laplace(mean, lev if hy is None else _hy(hy, "lev_over_h", lev), geometry=n, name=name)
+    if fam == "Lognormal":
+        # matrix-valued covariance, constant or depending on a hyper-parameter
+        cov = lev * np.eye(n) if hy is None else gen.named_callable([hy], (lambda lev, n: (lambda h: (lev / h) * np.eye(n)))(lev, n))
+        return D.Lognormal(mean, cov, geometry=n, name=name)
     return D.Normal(mean, np.sqrt(lev) if hy is None else _hy(hy, "sqrt_lev_over_h", lev), geometry=n, name=name)
 
 
@@ -249,6 +259,8 @@ def ref_factor_logpdf(spec, name, values):
             return float(np.sum(sps.norm.logpdf(x, mean, np.sqrt(lev))))
         if fam == "Laplace":
             return float(np.sum(sps.laplace.logpdf(x, mean, lev)))
+        if fam == "Lognormal":
+            return float(np.sum(sps.norm.logpdf(np.log(x), mean, np.sqrt(lev))) - np.sum(np.log(x)))
         if fam == "GMRF":
             Dm = _ref_D(n, lat["bc"], lat["order"])
             P = Dm.T @ Dm
